@@ -43,8 +43,8 @@ def pdp_precedence_ok(order):
 class Shadow:
     """per-batch shadow state kept by the monitor."""
 
-    def __init__(self, ctx, sig, td, pdp):
-        self.ctx, self.sig, self.pdp = ctx, sig, pdp
+    def __init__(self, ctx, sig, td, pdp, env=None):
+        self.ctx, self.sig, self.pdp, self.env = ctx, sig, pdp, env
         self.B = td.batch_size[0]
         self.locs = td["locs"].tolist()
         self.init = [None] * self.B
@@ -136,6 +136,35 @@ class Shadow:
                     self.v(b, "visited_time", f"after {kind}: visited_time {got} is not the visiting order of rec_current {oc}", td, action)
                     continue
             self.prev_bsf[b] = cb[b]
+        self.accessors(td, kind)
+
+    def accessors(self, td, kind):
+        """the documented way to read the tours out of a state (get_current_solution / get_best_solution): the visiting order
+        from node 0 of the stored successor arrays, and _get_linked_list_solution as their inverse"""
+        if self.env is None:
+            return
+        try:
+            cur = self.env.get_current_solution(td.clone()).tolist()
+            best = self.env.get_best_solution(td.clone()).tolist()
+            back = self.env._get_linked_list_solution(torch.as_tensor(best)).tolist()
+        except Exception as e:
+            self.ctx.violation(dict(self.sig, q="solution_accessor_raises"), f"after {kind}: get_current_solution / get_best_solution raised {type(e).__name__}: {str(e)[:160]}", None)
+            self.env = None
+            return
+        rc, rb = td["rec_current"].tolist(), td["rec_best"].tolist()
+        for b in range(self.B):
+            if self.dead[b]:
+                continue
+            self.ctx.count("c09_solution_accessor_checks")
+            oc, ob = walk(rc[b]), walk(rb[b])
+            if oc is None or ob is None:
+                continue
+            if cur[b] != oc:
+                self.v(b, "get_current_solution", f"after {kind}: get_current_solution gives {cur[b]}, the current tour walked from node 0 is {oc}", td, None)
+            elif best[b] != ob:
+                self.v(b, "get_best_solution", f"after {kind}: get_best_solution gives {best[b]}, the stored best tour walked from node 0 is {ob}", td, None)
+            elif back[b] != rb[b]:
+                self.v(b, "linked_list_of_solution", f"after {kind}: _get_linked_list_solution(get_best_solution) gives {back[b]}, stored successor array is {rb[b]}", td, None)
 
 
 def make_env(cfg):
@@ -164,7 +193,7 @@ def sampler_case(ctx, case):
         from tensordict import TensorDict
 
         td2 = env.reset(TensorDict({"locs": src.clone()}, batch_size=[B]))
-    sh = Shadow(ctx, dict(env=cfg["env"], k=cfg.get("k"), driver="sampler"), td, pdp)
+    sh = Shadow(ctx, dict(env=cfg["env"], k=cfg.get("k"), driver="sampler"), td, pdp, env)
     ctx.count("episodes")
     for t in range(case.get("steps", 40)):
         if case.get("jump_every") and (t + 1) % case["jump_every"] == 0:
@@ -227,7 +256,7 @@ def exhaustive_case(ctx, case):
     if M == 0:
         return
     big = torch.cat([td.clone() for _ in range(M)], 0)
-    sh = Shadow(ctx, dict(env=cfg["env"], k=cfg.get("k"), driver="all_admitted_moves"), big, pdp)
+    sh = Shadow(ctx, dict(env=cfg["env"], k=cfg.get("k"), driver="all_admitted_moves"), big, pdp, env)
     big.set("action", moves)
     big = env.step(big)["next"]
     sh.observe(big, moves, "step")
@@ -261,7 +290,7 @@ def policy_case(ctx, case):
         pol = N2SPolicy(env_name=env.name, embed_dim=32, num_encoder_layers=1, num_heads=2)
     pol.eval()
     td = env.reset(batch_size=[B])
-    sh = Shadow(ctx, dict(env=cfg["env"], k=cfg.get("k"), driver="policy:" + kind), td, pdp)
+    sh = Shadow(ctx, dict(env=cfg["env"], k=cfg.get("k"), driver="policy:" + kind, phase=case.get("phase", "test")), td, pdp, env)
     ctx.count("episodes")
     phase = case.get("phase", "test")
     with torch.no_grad():
